@@ -224,7 +224,10 @@ def finish(ctx, t0, level="other", explanation="", trusted=None, extra=None, out
         "normalisations_applied": {k: (len(v) if isinstance(v, list) else v) for k, v in (
             ("noise_statements_removed", getattr(ctx.model, "noise_removed", 0)), ("explaining_variables_inlined", getattr(ctx.model, "temps_inlined", [])),
             ("comparisons_turned_back", getattr(ctx.model, "comparisons_turned", 0)), ("conditional_assignments_merged", getattr(ctx.model, "conditionals_merged", 0)),
-            ("index_loops_restored", getattr(ctx.model, "loops_restored", 0)), ("fstrings_rewritten", getattr(ctx.model, "fstrings", 0)))},
+            ("index_loops_restored", getattr(ctx.model, "loops_restored", 0)), ("fstrings_rewritten", getattr(ctx.model, "fstrings", 0)),
+            ("extracted_helpers_inlined", getattr(ctx.model, "helpers_inlined", [])), ("nested_functions_put_back", getattr(ctx.model, "renested", [])),
+            ("hoisted_locals_inlined", getattr(ctx.model, "hoisted_inlined", [])), ("one_armed_conditionals_merged", getattr(ctx.model, "one_armed_merged", 0)),
+            ("decision_action_splits_fused", getattr(ctx.model, "flags_fused", 0)), ("parameter_rebindings_inlined", getattr(ctx.model, "param_rebinds_inlined", [])))},
         "checker_cmd": "/venv/bin/python -m sa.check %s --tier %s" % (ctx.prop, ctx.tier),
         "trusted_base": trusted or ["CPython ast module", "the transfer functions of sa/ (Python slice/list semantics, numpy axis semantics)",
                                     "mathematical facts cited in DESIGN.md §9"],
